@@ -8,10 +8,7 @@
 (* A clause is <<name, nontrivial, holds>>.  "nontrivial" marks            *)
 (* evaluations whose antecedent was not vacuous (counted in the evidence). *)
 (***************************************************************************)
-EXTENDS AnsiValue
-
-Cl(name, nontriv, holds) == << <<name, nontriv, holds>> >>
-None == << >>
+EXTENDS AnsiFuncs
 
 ---------------------------------------------------------------------------
 (***************************************************************************)
@@ -321,13 +318,18 @@ RenderC(e, pre, post) ==
      IN Cl("C01.wellformed", claim /\ HasSgr(toks), claim => (ToksClean(toks) /\ ToksReadable(toks)))
      \o Cl("C01.text", claim, claim => CharsOf(toks) = v.t)
      \o Cl("C01.display", claim /\ HasStyle(v), claim => Shown(run0, v))
-     \o Cl("C01.reset_start_begins", fl[2] = 1, fl[2] = 1 => firstReset)
+     \o Cl("C01.reset_start_begins", fl[2] = 1 /\ claim, (fl[2] = 1 /\ claim) => firstReset)
      \o Cl("C01.reset_start_independent", fl[2] = 1 /\ claim /\ HasStyle(v), (fl[2] = 1 /\ claim) => Shown(runD, v))
      \o Cl("C01.reset_end_default", fl[3] = 1 /\ claim /\ HasSgr(toks),
            (fl[3] = 1 /\ claim /\ HasSgr(toks)) =>
               (run0.fin = DefaultState /\ (fl[2] = 1 => runD.fin = DefaultState)))
      \o Cl("C15.strip", UsesParamOnly(v) /\ NoEsc(v.t) /\ HasStyle(v),
            (UsesParamOnly(v) /\ NoEsc(v.t) /\ e.o.valid = 1) => StripSgr(out) = v.t)
+     \o Cl("C15.valid_conj", HasStyle(v),
+           (e.o.valid = 1) = (\A i \in DOMAIN v.s : \A k \in DOMAIN v.s[i] : ValidG(TextTable[v.s[i][k][2]])))
+     \o Cl("C15.parsable_conj", HasStyle(v),
+           (\A i \in DOMAIN v.s : \A k \in DOMAIN v.s[i] : ParsableInClaim(TextTable[v.s[i][k][2]])) =>
+              ((e.o.parsable = 1) = ValAllSingle(v)))
      \o Cl("C15.verbatim_intact", UsesParamOnly(v) /\ NoEsc(v.t) /\ HasStyle(v) /\ (fl[1] = 0 \/ ~ValAllSingle(v)),
            (UsesParamOnly(v) /\ NoEsc(v.t) /\ e.o.valid = 1 /\ (fl[1] = 0 \/ ~ValAllSingle(v))) =>
               \A i \in DOMAIN v.s : \A k \in DOMAIN v.s[i] :
@@ -380,6 +382,11 @@ OpClauses(e, pre, post) ==
     [] e.op = "render" -> RenderC(e, pre, post)
     [] e.op = "reparse" -> ReparseC(e, pre, post)
     [] e.op = "simplify" -> SimplifyC(e, pre, post)
+    [] e.op = "pgs"    -> PgsC(e)
+    [] e.op = "s2d"    -> S2dC(e)
+    [] e.op = "pcs"    -> PcsC(e)
+    [] e.op = "helper" -> HelperC(e)
+    [] e.op = "aset"   -> AsetC(e)
     [] OTHER -> None
 
 Clauses(e, pre, post) == Common(e, pre, post) \o OpClauses(e, pre, post)
